@@ -238,13 +238,18 @@ package vm
 // Ghost vm_failed: the most recent top-level call or creation ended with an error (ghost
 // instrumentation used by the state transition's 'failed' flag, C06).
 //@ ghost vm_failed Bool
+// Ghost entry_nonces: the nonce map as it was when the most recent top-level message call was
+// entered (ghost instrumentation: lets the state transition say "the sender's nonce was already
+// incremented when the callee started running", C06).
+//@ ghost entry_nonces (Array (Array (_ BitVec 64) (_ BitVec 8)) (_ BitVec 64))
 //@ func EVM.Call
 //@   axiom vm_failed == (err != nil)
+//@   axiom entry_nonces == old(nonces)
 //@   requires[C07] evm != nil && evm.interpreter != nil && evm.StateDB != nil
 //@   ensures[C06,C07] @gas leftOverGas <= gas
 //@   ensures[C07] @revert err != nil && runs > old(runs) ==> reverted_to == old(snapctr)
 //@   ensures[C07] @depth !old(evm.vmConfig.NoRecursion && evm.depth > 0) && old(evm.depth) > 1024 ==> err == ErrDepth && runs == old(runs) && leftOverGas == gas
-//@   assigns bal, nonces, refundctr, supply, snapctr, snapnonces, reverted_to, ro_at_run, runs, vm_failed
+//@   assigns bal, nonces, refundctr, supply, snapctr, snapnonces, reverted_to, ro_at_run, runs, vm_failed, entry_nonces
 //@   noframe
 
 //@ func EVM.Create
